@@ -186,3 +186,64 @@ def test_timer_order_and_batch_granularity():
         assert log == ["now", "t1", "t2"] and loop.time() == 6.0
     finally:
         loop.shutdown()
+
+
+def test_close_with_unsent_data_defers_connection_lost():
+    """Grounds the slow_close model: a real selector transport whose write buffer is not empty reports connection_lost only after
+    the buffer has drained; MemTransport with conn.slow_close does the same under explorer control (complete_close)."""
+    # ---- real asyncio over a socketpair whose peer does not read
+    async def real():
+        loop = asyncio.get_running_loop()
+        a, b = socket.socketpair()
+        a.setblocking(False)
+        b.setblocking(False)
+        log = []
+        tr, _ = await loop.create_connection(lambda: Rec(log), sock=a)
+        tr.write(b"x" * (8 * 1024 * 1024))
+        tr.close()
+        for _ in range(5):
+            await asyncio.sleep(0.01)
+        before = list(log)
+        # now the peer drains everything
+        got = 0
+        for _ in range(2000):
+            try:
+                d = b.recv(1 << 20)
+                if not d:
+                    break
+                got += len(d)
+            except BlockingIOError:
+                await asyncio.sleep(0.001)
+            if ("lost", "NoneType") in log:
+                break
+        for _ in range(5):
+            await asyncio.sleep(0.01)
+        b.close()
+        return before, list(log)
+
+    loop = asyncio.new_event_loop()
+    try:
+        before, after = loop.run_until_complete(real())
+    finally:
+        loop.close()
+    assert ("lost", "NoneType") not in before and before == [("made",)], before
+    assert after[-1] == ("lost", "NoneType"), after
+    # ---- virtual
+    vl = vloop.VirtualLoop().install()
+    try:
+        net = vloop.SimNet(vl)
+        att = {"t": 0, "hosts": ["h"], "port": 1, "fut": vl.create_future(), "outcome": None}
+        conn = net.accept(att, "h")
+        conn.slow_close = True
+        log = []
+        tr = vloop.MemTransport(vl, Rec(log), att["fut"].result())
+        vl.run_until_idle()
+        tr.write(b"x" * 100)
+        tr.close()
+        vl.run_until_idle()
+        assert log == [("made",)] and tr.is_closing() and not conn.open
+        assert tr.complete_close()
+        vl.run_until_idle()
+        assert log == [("made",), ("lost", "NoneType")]
+    finally:
+        vl.shutdown()
